@@ -1,8 +1,10 @@
 #!/bin/sh
-# Regenerates confirmed-counts.json: the number of constructs every obligation
+# Regenerates vocab.json and confirmed-counts.json: the number of constructs every obligation
 # inspects on the reviewed tree (/repo as it is now).  Run after reviewing a
 # change of the rules or of /repo; the checks only read the file.
 cd "$(dirname "$0")/.." || exit 2
+# vocab.json: the repository names the rules look for and the names the reviewed tree declares
+./pv vocab "$(pwd)/vocab.json" || { echo "vocab failed"; exit 1; }
 rm -f confirmed-counts.json.new
 for p in $(./pv list); do
   case $p in C??) ;; *) continue;; esac
